@@ -202,6 +202,7 @@ type Object struct {
 	freed     bool
 	owner     string // "", "caller", "pool", "gc"
 	readonly  bool   // stores are violations (caller memory, string data)
+	frozen    bool   // shared between instances/goroutines: plain stores are violations (C14)
 	tag       string
 	allocSite string
 }
